@@ -141,11 +141,12 @@ Qed.
 
 (* stv_init succeeds on a valid profile with m = 1 and the Droop quota *)
 Lemma irv_init_ok : forall cfg (p : profile), wf_stv_profile p ->
+  (s_transfer cfg = TRandom -> integral_weights p) ->
   s_quota cfg = QDroop -> s_m cfg = 1%Z -> exists t, stv_init cfg p = inl t.
 Proof.
-  intros cfg p [Hwf [Hcs _]] Hq Hm.
+  intros cfg p [Hwf [Hcs _]] Hint Hq Hm.
   destruct (stv_init cfg p) as [t|e] eqn:E; [exists t; reflexivity|exfalso].
-  destruct (stv_init_err cand cfg p e Hwf E) as [_ [H|H]].
+  destruct (stv_init_err cand cfg p e Hwf Hint E) as [_ [H|H]].
   - apply H. rewrite Hm. destruct (cands p); [contradiction Hcs; reflexivity|]. cbn [length]. lia.
   - rewrite Hq in H. discriminate.
 Qed.
@@ -557,7 +558,7 @@ Theorem irv_majority_fractional_runs : forall cfg (p : profile) (c : cand) (s : 
     length out = 2%nat /\ Forall (fun st => tiebreaks st = []) out.
 Proof.
   intros cfg p c s Hwfp Hint Hq Ek Hm Hc Hmaj.
-  destruct (irv_init_ok cfg p Hwfp Hq Hm) as [t Hinit].
+  destruct (irv_init_ok cfg p Hwfp (fun _ => Hint) Hq Hm) as [t Hinit].
   apply (irv_reaches_fractional_runs cfg p c t s); try assumption.
   apply (majority_reaches cfg p c t (proj1 Hwfp) Hint Hq Hm Hinit Hmaj).
 Qed.
